@@ -117,23 +117,80 @@ def rule_data(c, prog, d):
     return results
 
 
+LOOKUP_MODULES = ("rbx_binary::core::", "rbx_xml::core::", "rbx_reflection::database::")
+PSER = "rbx_reflection::database::PropertySerialization"
+PKIND = "rbx_reflection::database::PropertyKind"
+
+
+def is_lookup_fn(prog, fn):
+    """a function of the descriptor-lookup modules that takes (or is a method of) a reflection descriptor type"""
+    if not fn.path.startswith(LOOKUP_MODULES) or fn.body is None or fn.dk == "Closure":
+        return False
+    sig = fn.d.get("sig") or ""
+    return any(t in sig for t in ("ReflectionDatabase", "ClassDescriptor", "PropertyDescriptor", "PropertySerialization"))
+
+
+def classify_site(prog, fn, s, origins):
+    """database obligation that discharges a panic-capable site of a descriptor lookup, from the *provenance of the
+    looked-up key* (which database field the name came from), or None"""
+    if s["macro"] in ("unimplemented", "unreachable"):
+        return "enum-arms-exhaustive"
+    n = s["node"]
+    if n.get("k") != "MethodCall" or n["m"] not in ("unwrap", "expect"):
+        return None
+    r = core.strip(n["recv"])
+    if not (r.get("k") == "MethodCall" and r["m"] == "get" and r["args"]):
+        return None
+    _root, mpath = core.place_root(r["recv"])
+    mfield = [p for p in mpath if not p.startswith(".")][-1:] or [None]
+    key = r["args"][0]
+    klid, kpath = core.place_root_lid(key)
+    kfields = [p for p in kpath if not p.startswith(".") and p != "?"]
+    # `classes.get(<x>.superclass…)` / `classes.get(name)` with name bound from `<x>.superclass`
+    def from_superclass(lid, fields, depth=0):
+        if "superclass" in fields:
+            return True
+        if lid is None or depth > 3:
+            return False
+        chain, scrut = origins.get(lid, ([], None))
+        if scrut is None:
+            return False
+        l2, p2 = core.place_root_lid(scrut)
+        f2 = [p for p in p2 if not p.startswith(".") and p != "?"]
+        return from_superclass(l2, f2, depth + 1) if (l2 != lid) else False
+    if mfield == ["classes"] and from_superclass(klid, kfields):
+        return "superclass-resolves"
+    if mfield == ["properties"] and klid is not None:
+        chain, _scrut = origins.get(klid, ([], None))
+        defs = [d for d, _f in chain]
+        if PSER + "::SerializesAs" in defs:
+            return "serializes-as-same-class"
+        if (PKIND + "::Alias", "alias_for") in chain:
+            return "alias-same-class"
+    return None
+
+
 def rule_oblig(c, prog, results):
     R = "C16.oblig"
-    c.rule(R, "every database-dependent panic site in the descriptor lookups (unwrap/expect/unimplemented!) is mapped to the C16.data obligation that discharges it; an unmapped site or a failing obligation is a violation")
+    c.rule(R, "every panic-capable site (unwrap/expect/unimplemented!) in the descriptor-lookup functions of rbx_binary::core, rbx_xml::core and rbx_reflection::database is classified by the provenance of the looked-up name (SerializesAs payload / alias_for / superclass) and mapped to the C16.data obligation that discharges it on the bundled database; an unclassifiable site or a failing obligation is a violation")
     n = 0
-    for path, table in OBLIG_FNS.items():
-        fn = prog.fn(path)
+    kinds = set()
+    for path, fn in sorted(prog.fns.items()):
+        if fn.crate not in core.LIB_CRATES or not is_lookup_fn(prog, fn):
+            continue
         sites = flow.panic_sites(fn)
-        seen = set()
+        if not sites:
+            continue
+        origins = core.binding_origins(fn)
         for s in sites:
             fp = s["fp"] if not s["macro"] else s["macro"]
             n += 1
-            ob = table.get(fp)
             inst = f"{path}|{fp}"
+            ob = classify_site(prog, fn, s, origins)
             if ob is None:
-                c.violation(R, inst, f"{path}: panic-capable site `{fp}` has no database obligation that discharges it (a malformed or newer database would panic the codec)", core.loc(s["node"]), instance=inst)
+                c.violation(R, inst, f"{path}: panic-capable site `{fp}` has no database obligation that discharges it (the looked-up name does not come from a SerializesAs / alias_for / superclass field; a malformed or newer database — or input — would panic the codec)", core.loc(s["node"]), instance=inst)
                 continue
-            seen.add(fp)
+            kinds.add(ob)
             if ob == "enum-arms-exhaustive":
                 if unimplemented_arm_dead(prog, fn, s["node"]):
                     c.ok(R, inst)
@@ -145,9 +202,10 @@ def rule_oblig(c, prog, results):
                     c.ok(R, inst)
                 else:
                     c.violation(R, inst + "|undischarged", f"{path}: `{fp}` relies on database obligation `{ob}`, which does not hold (or was not checked) on the bundled database", core.loc(s["node"]), instance=inst)
-        for fp in set(table) - seen:
-            c.violation(R, f"anchor|{path}|{fp}", f"{path}: expected database-dependent site `{fp}` not found (table out of date)", fn.sp)
-    c.floor(R, n, 10, "database-dependent panic sites")
+    c.floor(R, n, 6, "database-dependent panic sites")
+    for need in ("serializes-as-same-class", "alias-same-class", "superclass-resolves"):
+        if need not in kinds:
+            c.violation(R, f"anchor|{need}", f"no lookup site relies on obligation `{need}` any more (table of obligations out of date, or the lookups lost sight of)", "")
     # DataType match in rbx_xml::serializer::serialize_instance
     fn = common.find_fn(prog, r"^rbx_xml::serializer::serialize_instance$")
     for s in flow.panic_sites(fn):
